@@ -242,11 +242,53 @@ func (w *world) unexpectedCall(what string) {
 	w.unexpected = append(w.unexpected, what)
 }
 
-func (w *world) funcs() interceptor.Funcs {
+// slot is one worker: a fake API client that is reused across histories (building one costs ~40 ms)
+// and the world currently attached to it.
+type slot struct {
+	c   client.WithWatch
+	cur *world
+}
+
+func newSlot() *slot {
+	s := &slot{}
+	s.c = kit.NewClient(s.funcs())
+	return s
+}
+
+// wipe removes every object a history may have left behind.
+func (s *slot) wipe() {
+	ctx := kit.Context()
+	s.cur = nil
+	for _, name := range []string{nodeName, dupName} {
+		n := &corev1.Node{}
+		if err := s.c.Get(ctx, client.ObjectKey{Name: name}, n); err == nil {
+			if len(n.Finalizers) > 0 {
+				n.Finalizers = nil
+				must(s.c.Update(ctx, n))
+			}
+			must(client.IgnoreNotFound(s.c.Delete(ctx, n)))
+		}
+	}
+	nc := &v1.NodeClaim{}
+	if err := s.c.Get(ctx, client.ObjectKey{Name: claimName}, nc); err == nil {
+		if len(nc.Finalizers) > 0 {
+			nc.Finalizers = nil
+			must(s.c.Update(ctx, nc))
+		}
+		must(client.IgnoreNotFound(s.c.Delete(ctx, nc)))
+	}
+	np := &v1.NodePool{}
+	if err := s.c.Get(ctx, client.ObjectKey{Name: poolName}, np); err == nil {
+		must(client.IgnoreNotFound(s.c.Delete(ctx, np)))
+	}
+}
+
+func (s *slot) funcs() interceptor.Funcs {
 	return interceptor.Funcs{
 		Patch: func(ctx context.Context, cl client.WithWatch, obj client.Object, patch client.Patch, opts ...client.PatchOption) error {
 			do := func() error { return cl.Patch(ctx, obj, patch, opts...) }
-			if !w.inRec {
+			w := s.cur
+			if w == nil || !w.inRec {
 				return do()
 			}
 			file := callerFile()
@@ -278,7 +320,8 @@ func (w *world) funcs() interceptor.Funcs {
 		},
 		SubResourcePatch: func(ctx context.Context, cl client.Client, sub string, obj client.Object, patch client.Patch, opts ...client.SubResourcePatchOption) error {
 			do := func() error { return cl.SubResource(sub).Patch(ctx, obj, patch, opts...) }
-			if !w.inRec {
+			w := s.cur
+			if w == nil || !w.inRec {
 				return do()
 			}
 			if _, ok := obj.(*v1.NodeClaim); ok && sub == "status" {
@@ -291,7 +334,8 @@ func (w *world) funcs() interceptor.Funcs {
 		},
 		Delete: func(ctx context.Context, cl client.WithWatch, obj client.Object, opts ...client.DeleteOption) error {
 			do := func() error { return cl.Delete(ctx, obj, opts...) }
-			if !w.inRec {
+			w := s.cur
+			if w == nil || !w.inRec {
 				return do()
 			}
 			file := callerFile()
@@ -318,7 +362,7 @@ func (w *world) funcs() interceptor.Funcs {
 			return do()
 		},
 		List: func(ctx context.Context, cl client.WithWatch, list client.ObjectList, opts ...client.ListOption) error {
-			if w.inRec {
+			if w := s.cur; w != nil && w.inRec {
 				if _, ok := list.(*corev1.NodeList); ok {
 					switch callerFile() {
 					case "registration.go":
@@ -338,7 +382,8 @@ func (w *world) funcs() interceptor.Funcs {
 		},
 		Get: func(ctx context.Context, cl client.WithWatch, key client.ObjectKey, obj client.Object, opts ...client.GetOption) error {
 			do := func() error { return cl.Get(ctx, key, obj, opts...) }
-			if !w.inRec {
+			w := s.cur
+			if w == nil || !w.inRec {
 				return do()
 			}
 			if _, ok := obj.(*v1.NodePool); ok {
@@ -459,10 +504,12 @@ func readConsts() consts {
 	return consts{LT: int64(lifecycle.LaunchTimeout / time.Second), RT: int64(lifecycle.VerifRegistrationTimeout() / time.Second)}
 }
 
-func newWorld(k cfgT, ks consts) *world {
+func newWorld(sl *slot, k cfgT, ks consts) *world {
+	sl.wipe()
 	w := &world{k: k, ks: ks, ctx: kit.Context(), t0: time.Unix(1_700_000_000, 0), occ: map[string]int{}, listHit: map[string]bool{}}
 	w.clk = clock.NewFakeClock(w.t0)
-	w.c = kit.NewClient(w.funcs())
+	w.c = sl.c
+	sl.cur = w
 	w.prov = &prov{CloudProvider: fake.NewCloudProvider(), w: w, alive: map[int]bool{}}
 	w.hook = &hookT{w: w}
 	w.np = nodepoolhealth.NewState()
